@@ -4,8 +4,8 @@ CONSTANTS
   Kinds = {"var", "func", "stmt", "flitres"}
   Variants = {"plain"}
   FuncExprIsDecl = FALSE
-  ParenIsNesting = TRUE
-  ImportIsDecl = TRUE
-  TrailingCommentStays = TRUE
+  ParenIsNesting = FALSE
+  ImportIsDecl = FALSE
+  TrailingCommentStays = FALSE
 INVARIANTS WantIsStatement CodeKeepsBytes SplitSane CodeMeetsStatement Export
 PROPERTY Terminates
